@@ -1000,6 +1000,11 @@ func (rl *Shell) viYankWholeLine() {
 		epos--
 	}
 
+	// An empty line has nothing but its newline.
+	if epos < bpos {
+		epos = bpos
+	}
+
 	// Pass the buffer to register.
 	buffer := (*rl.line)[bpos:epos]
 	rl.Buffers.Write(buffer...)
